@@ -23,7 +23,7 @@ def run(ctx):
     ctx.cov['source_hash'] = source_hash(FILES)
     prove(ctx)
     driver = build_model_driver(ctx, 'callrcu', 'ExtractCallRcu.v', 'callrcu_driver.ml')
-    CR.run_scen(ctx, PROGS + CPUPROGS, 300 if ctx.quick() else 4000, 'C03', driver, extra_cases=cpu_cases(ctx))
+    CR.run_scen(ctx, PROGS + CPUPROGS, 300 if ctx.quick() else 4000, 'C03', driver, extra_cases=cpu_cases(ctx) + CR.handshake_cases(ctx))
     return finish(ctx, trusted=TRUSTED, rule='Step/Flush/Spurious schedules over application threads and library-created helper threads: parking sweeps (step and operation level) + bursty random; '
                   'programs with concurrent callers, readers, chained callbacks, per-thread helpers created and destroyed with callbacks pending; non-trivial = a helper slept')
 def replay(ctx, rp):
